@@ -17,7 +17,10 @@ META = {
     "delimiter start sequence is rendered by a fresh Environment in each of the 6 configurations and must equal "
     "R-text(source); one symbol longer is checked the same way at the parser's output (the TemplateData the "
     "compiler would emit); the same strings including {{ {% {# are rendered under ASP-style delimiters where '{' "
-    "is plain text. (b) every sequence of <= 4 (thorough 5) fragments over {{ }} {% %} {# #} a space \\n raw endraw "
+    "is plain text, and strings that do not contain the prefix under line-statement / line-comment prefixes made of "
+    "regular-expression metacharacters. (d) every string of <= 3 symbols with a line break: an environment renders it, "
+    "has newline_sequence or keep_trailing_newline reassigned, renders again, then a fresh environment with the "
+    "original options renders - each as R-text says for its current options. (b) every sequence of <= 4 (thorough 5) fragments over {{ }} {% %} {# #} a space \\n raw endraw "
     "- + that does not contain the terminator is used as a comment body and as a raw body between fixed context "
     "text, with the -/+ modifiers of the surrounding tags and trim/lstrip settings: a comment contributes nothing, "
     "a raw body is output verbatim up to the documented effect of its own tags' modifiers. (c) every string of <= 3 "
@@ -90,6 +93,11 @@ def strings(prefix, length, allow_starts=False):
         yield s
 
 
+# line prefixes made of regular-expression metacharacters; a text that does not contain the literal prefix has no
+# line statement / line comment in it and must render as plain text
+PREFIXES = [("..", None), ("%+", None), (None, "#+"), ("[%]", "[#]"), ("a?", "-*")]
+
+
 def render_plain(src, ns, ktn, extra=None):
     from jinja2 import Environment
 
@@ -119,9 +127,14 @@ def text_shard(arg) -> core.Part:
     mode, prefix, lengths, configs = arg
     p = core.Part()
     extra = g.env_kwargs(g.DELIMS["asp"]) if mode == "asp" else None
+    if mode.startswith("prefix"):
+        lsp, lcp = PREFIXES[int(mode[6:])]
+        extra = {"line_statement_prefix": lsp, "line_comment_prefix": lcp}
     nstr = 0
     for length in lengths:
         for s in strings(tuple(prefix), length, allow_starts=(mode == "asp")):
+            if mode.startswith("prefix") and any(x is not None and x in s for x in PREFIXES[int(mode[6:])]):
+                continue  # contains the literal prefix: may legitimately be a line statement / comment
             nstr += 1
             for ns, ktn in configs:
                 p.evals += 1
@@ -133,7 +146,7 @@ def text_shard(arg) -> core.Part:
                         got = render_plain(s, ns, ktn, extra)
                 except Exception as e:  # noqa: BLE001
                     got = ("exc", type(e).__name__, str(e))
-                if exp != s:
+                if exp != s or mode.startswith("prefix"):
                     # non-trivial: the documented rules change the text; distinct = the change pattern
                     p.sig((mode, ns, ktn, _shape(s)))
                 if got != exp:
@@ -425,6 +438,60 @@ def esc_shard(arg) -> core.Part:
     return p
 
 
+# --------------------------------------------------------------------------
+# (d) an environment is reconfigured after use; a fresh environment with the original options is unaffected
+
+
+def reconf_shard(arg) -> core.Part:
+    import jinja2
+
+    first, lengths = arg
+    p = core.Part()
+    for n in lengths:
+        rest = n - len(first)
+        if rest < 0:
+            continue
+        for s in strings(tuple(first), n):
+            if not ("\n" in s or "\r" in s):
+                continue
+            for ns, ktn in CONFIGS:
+                changes = [("newline_sequence", x) for x in ("\n", "\r\n", "\r") if x != ns] + [("keep_trailing_newline", not ktn)]
+                for attr, val in changes:
+                    p.evals += 1
+                    jinja2.clear_caches()
+                    obs = []
+                    try:
+                        a = jinja2.Environment(newline_sequence=ns, keep_trailing_newline=ktn)
+                        obs.append(("A before", a.from_string(s).render(), r_text(s, ns, ktn)))
+                        setattr(a, attr, val)
+                        ns2, ktn2 = (val, ktn) if attr == "newline_sequence" else (ns, val)
+                        obs.append(("A after", a.from_string(s).render(), r_text(s, ns2, ktn2)))
+                        b = jinja2.Environment(newline_sequence=ns, keep_trailing_newline=ktn)
+                        obs.append(("fresh B", b.from_string(s).render(), r_text(s, ns, ktn)))
+                    except Exception as e:  # noqa: BLE001
+                        obs.append(("raises", (type(e).__name__, str(e)), None))
+                    p.sig(("reconf", ns, ktn, attr, val, _shape(s)))
+                    for who, got, exp in obs:
+                        if got != exp:
+                            p.violation(f"C11/reconfigured/{who.replace(' ', '-')}/{attr}", {
+                                "msg": f"A = Environment(newline_sequence={ns!r}, keep_trailing_newline={ktn}) renders {s!r}; "
+                                       f"then A.{attr} = {val!r}; A renders again; fresh B with A's original options renders: "
+                                       f"{who} gave {got!r}, expected {exp!r}",
+                                "source": s, "size": len(s),
+                                "script": "import jinja2\n"
+                                          f"s = {s!r}\n"
+                                          f"a = jinja2.Environment(newline_sequence={ns!r}, keep_trailing_newline={ktn})\n"
+                                          "print('A before', repr(a.from_string(s).render()))\n"
+                                          f"a.{attr} = {val!r}\n"
+                                          "print('A after ', repr(a.from_string(s).render()))\n"
+                                          f"b = jinja2.Environment(newline_sequence={ns!r}, keep_trailing_newline={ktn})\n"
+                                          f"print('fresh B ', repr(b.from_string(s).render()), 'expected', {r_text(s, ns, ktn)!r})\n",
+                            })
+                            break
+            p.sample({"part": "d", "source": s}, cap=1)
+    return p
+
+
 def run(ctx: core.Ctx):
     core.import_all_jinja()
     ctx.rule = ("(a) all strings of <= k symbols without {{ {% {# (strings are unique per symbol sequence: the pair \\r,\\n "
@@ -455,7 +522,11 @@ def run(ctx: core.Ctx):
     shards += [("parse", pr, [k_parse], CONFIGS) for pr in pref3]
     if not ctx.quick:
         shards += [("render", pr, [k_parse], [("\r\n", False)]) for pr in pref3]
+    for i in range(len(PREFIXES)):
+        shards += [("prefix%d" % i, (), [0, 1], CONFIGS[:3:2])] + [("prefix%d" % i, (x,), [2, 3, 4], CONFIGS[:3:2]) for x in SYMS]
     ctx.pmap(text_shard, shards)
+    rshards = [((), [1])] + [((x,), [2, 3]) for x in SYMS]
+    ctx.pmap(reconf_shard, rshards)
     bshards = [((), [0, 1], full_upto)] + [((x, y), list(range(2, k_body + 1)), full_upto) for x in FRAGS for y in FRAGS]
     ctx.pmap(body_shard, bshards)
     k_esc = 3 if ctx.quick else 4
@@ -468,6 +539,8 @@ def run(ctx: core.Ctx):
         "a_render_crlf_config_symbols": None if ctx.quick else k_parse,
         "a_asp_delimiters_max_symbols": 4,
         "a_alphabet": [repr(s) for s in SYMS],
+        "a_metachar_line_prefixes": [list(x) for x in PREFIXES], "a_metachar_prefix_max_symbols": 4,
+        "d_reconfigure_after_use_max_symbols": 3,
         "b_fragments": list(FRAGS),
         "b_max_fragments": k_body,
         "b_full_modifier_grid_upto_fragments": full_upto,
@@ -480,4 +553,4 @@ def run(ctx: core.Ctx):
                               "source forms x 2 comment / 6 raw modifier combinations x 2 settings",
         "b_grid_longest": "comment: 3 modifier pairs x 2 settings; raw: 6 inner modifier combinations x 2 settings",
     }
-    ctx.cov["shards_completed"] = len(shards) + len(bshards) + len(eshards)
+    ctx.cov["shards_completed"] = len(shards) + len(bshards) + len(eshards) + len(rshards)
